@@ -3,13 +3,18 @@
 package transaction
 
 import (
+	"crypto/elliptic"
+	"math/big"
+
 	"github.com/elastos/Elastos.ELA/blockchain"
 	"github.com/elastos/Elastos.ELA/common"
 	"github.com/elastos/Elastos.ELA/common/config"
+	"github.com/elastos/Elastos.ELA/core/contract"
 	pg "github.com/elastos/Elastos.ELA/core/contract/program"
 	common2 "github.com/elastos/Elastos.ELA/core/types/common"
 	"github.com/elastos/Elastos.ELA/core/types/outputpayload"
 	"github.com/elastos/Elastos.ELA/core/types/payload"
+	"github.com/elastos/Elastos.ELA/crypto"
 	"github.com/elastos/Elastos.ELA/dpos/state"
 	"github.com/elastos/Elastos.ELA/zzverif/nd"
 )
@@ -206,5 +211,120 @@ func ZZ_C33_v1() {
 		nd.Assert(shape == 0, "script_names_exactly_the_normal_arbiters")
 		m := int(code[0]) - 0x51 + 1
 		nd.Assert(m >= 2, "required_signature_count_is_at_least_the_quorum")
+	}
+}
+
+// zzArbiterKey: natively the compressed public key of the P-256 private
+// scalar i+1 (a point on the curve, so that the real aggregation works);
+// under the engine, where curve arithmetic is stubbed, a placeholder.
+func zzArbiterKey(i int) []byte {
+	if nd.Symbolic() {
+		return zzKeyBytes(i)
+	}
+	x, y := elliptic.P256().ScalarBaseMult([]byte{byte(i + 1)})
+	k := make([]byte, 33)
+	k[0] = 2 + byte(y.Bit(0))
+	x.FillBytes(k[1:])
+	return k
+}
+
+// ZZ_C33_v2: a Schnorr (payload version 2) side-chain withdrawal at or above
+// the restriction height whose program is the script of the aggregate key of
+// the arbiters its signer list names passes its special context check only if
+// it spends only cross-chain UTXOs, names at least 2/3+1 signers, and every
+// signer index names an existing arbiter and appears once. 36 current
+// cross-chain arbiters (so that indexes above 31 exist), member count 3,
+// 2..4 signer indexes of arbitrary byte value. Under the engine the curve
+// arithmetic (Unmarshal / Add / Marshal / DecodePoint) is stubbed and the
+// aggregate script is a fixed Schnorr script equal to the program's code,
+// i.e. "the program is the one for the named signers"; natively the program
+// is computed with the real functions from the signer list of the vector.
+func ZZ_C33_v2() {
+	nd.Stub("crypto.Unmarshal")
+	nd.Stub("crypto.Marshal")
+	nd.Stub("crypto.DecodePoint")
+	nd.Stub("(crypto/elliptic.Curve).Add")
+	fixed := append([]byte{0x51, 33}, zzKeyBytes(9)...)
+	nd.StubReturn("core/contract.CreateSchnorrRedeemScript", fixed)
+	const n = 36
+	arb := &zzArbiters{}
+	// under the engine the arbiters' keys are never looked at (stubs), so the
+	// 36 list entries are one object: a symbolic index then selects it without
+	// a 36-way case split
+	shared := &state.ArbiterInfo{NodePublicKey: zzKeyBytes(0), IsNormal: true}
+	for i := 0; i < n; i++ {
+		if nd.Symbolic() {
+			arb.cross = append(arb.cross, shared)
+		} else {
+			arb.cross = append(arb.cross, &state.ArbiterInfo{NodePublicKey: zzArbiterKey(i), IsNormal: true})
+		}
+	}
+	old := blockchain.DefaultLedger
+	blockchain.DefaultLedger = &blockchain.Ledger{Arbitrators: arb}
+	defer func() { blockchain.DefaultLedger = old }()
+	cfg := &config.Configuration{}
+	cfg.CRConfiguration.MemberCount = 3
+	cfg.CRConfiguration.CRClaimDPOSNodeStartHeight = 10
+	cfg.DPoSConfiguration.DPOSNodeCrossChainHeight = 20
+	cfg.CrossChainUTXORestrictionHeight = 50
+	k := nd.Choose("signerCount", 3) + 2
+	signers := nd.Bytes("signers", k)
+	code := fixed
+	if !nd.Symbolic() {
+		// the script of the aggregate of the named arbiters (an index beyond the
+		// list names nobody: such a list must be refused whatever the program)
+		Px, Py := new(big.Int), new(big.Int)
+		for _, s := range signers {
+			if int(s) < n {
+				x, y := crypto.Unmarshal(crypto.Curve, arb.cross[s].NodePublicKey)
+				Px, Py = crypto.Curve.Add(Px, Py, x, y)
+			}
+		}
+		if pk, err := crypto.DecodePoint(crypto.Marshal(crypto.Curve, Px, Py)); err == nil {
+			code, _ = contract.CreateSchnorrRedeemScript(pk)
+		}
+	}
+	pld := &payload.WithdrawFromSideChain{Signers: signers}
+	tx := &WithdrawFromSideChainTransaction{}
+	tx.SetTxType(common2.WithdrawFromSideChain)
+	tx.SetPayloadVersion(payload.WithdrawFromSideChainVersionV2)
+	tx.SetPayload(pld)
+	tx.SetPrograms([]*pg.Program{{Code: code, Parameter: make([]byte, 64)}})
+	tx.references = map[*common2.Input]common2.Output{}
+	allCross := true
+	for i, zzn := 0, nd.Choose("references", 2)+1; i < zzn; i++ {
+		var o common2.Output
+		o.ProgramHash[0] = []byte{0x4B, 0x21, 0x12}[nd.Choose("prefix", 3)]
+		if o.ProgramHash[0] != 0x4B {
+			allCross = false
+		}
+		tx.references[&common2.Input{Sequence: uint32(i)}] = o
+	}
+	tx.parameters = &TransactionParameters{Transaction: tx, BlockHeight: 100, Config: cfg}
+	var err error
+	nd.NoPanic("SpecialContextCheck", func() {
+		err2, _ := tx.SpecialContextCheck()
+		if err2 != nil {
+			err = err2
+		}
+	})
+	nd.Reach("decided")
+	if err == nil {
+		nd.Reach("accepted")
+		nd.Assert(allCross, "accepted_withdrawal_spends_only_cross_chain_utxos")
+		nd.Assert(k >= 3, "accepted_withdrawal_names_at_least_the_quorum_of_signers")
+		inRange, distinct := true, true
+		for i := range signers {
+			if int(signers[i]) >= n {
+				inRange = false
+			}
+			for j := 0; j < i; j++ {
+				if signers[i] == signers[j] {
+					distinct = false
+				}
+			}
+		}
+		nd.Assert(inRange, "every_signer_index_names_an_existing_arbiter")
+		nd.Assert(distinct, "a_signer_index_appears_only_once")
 	}
 }
